@@ -21,8 +21,8 @@ open RemapTree
 /-! ## References -/
 
 /-- **What `remap.rs` does, exactly.** On the reference positions of the class (record components, which it drops,
-excepted) it acts position by position as `codeApply` — the remapper's answer everywhere except that the descriptor of an
-`invokedynamic` / dynamic constant and the constant name of an enum element value are copied — and it fails exactly when
+excepted) it acts position by position as `codeApply` — the remapper's answer everywhere except that the constant name of
+an enum element value is copied — and it fails exactly when
 one of these answers fails. Full strength, no hypothesis. -/
 theorem remap_refs_code (r : Remapper) (c : ClassFile) :
     (remapClass r c).map refsClass = omapM (codeApply r c.name) (refsClass (strip c)) :=
@@ -56,8 +56,7 @@ theorem strip_of_kept {c : ClassFile} (h : Kept c = true) : strip c = c := by
 
 /-- **`remap_refs`, proved domain.** For a class with nothing that `remap.rs` drops (`Kept`: no module data, no record
 components, no unknown attributes) and a remapper whose answers at the positions `remap.rs` copies are the identity
-(`Agree`: it does not rename anything inside the descriptors of `invokedynamic` / dynamic constants nor any enum constant
-used in an annotation), the references of the result are the remapper's answers for the original references, in order;
+(`Agree`: it does not rename any enum constant used in an annotation), the references of the result are the remapper's answers for the original references, in order;
 and the remap fails exactly when an answer fails. Weaker than the property text, which has no such hypotheses — see the
 `_witness` theorems. -/
 theorem remap_refs_partial (r : Remapper) (c : ClassFile) (hk : Kept c = true) (ha : Agree r c = true) :
@@ -144,21 +143,25 @@ example : Kept exampleClass = true ∧ Agree rAB exampleClass = true ∧
 def indyClass : ClassFile :=
   { emptyClass [88] with methods := [{ emptyMethod nameG unitLA with code := some (codeOf [.indy nameF unitLA someHandle []]) }] }
 
-/-- **witness (invokedynamic descriptor).** Outside `Agree` the full statement fails: the class is `Kept`, the remap
-succeeds, but the `invokedynamic` descriptor `()LA;` still names `A` although the remapper answers `()LB;`. -/
-theorem remap_refs_indy_witness :
-    Kept indyClass = true ∧
-    (remapClass rAB indyClass).map refsClass ≠ omapM (applyRef rAB indyClass.name) (refsClass indyClass) := by decide
+/-- **regression (invokedynamic descriptor; a witness of the gap before the fix 45d38a4).** The class is inside the
+proved domain and the descriptor `()LA;` of the `invokedynamic` is renamed to `()LB;`. -/
+theorem remap_refs_indy_fixed :
+    Kept indyClass = true ∧ Agree rAB indyClass = true ∧
+    (remapClass rAB indyClass).map refsClass = omapM (applyRef rAB indyClass.name) (refsClass indyClass) ∧
+    (remapClass rAB indyClass).map refsClass =
+      some [.cls [88], .methodDecl nameG unitLB, .dynDesc unitLB, .methodRef ⟨B, nameF, unitLB⟩] := by decide
 
 /-- `ldc` of a dynamic constant of type `LA;` -/
 def condyClass : ClassFile :=
   { emptyClass [88] with
     methods := [{ emptyMethod nameG unitLA with code := some (codeOf [.ldc (.dynamic (.mk nameF LA someHandle []))]) }] }
 
-/-- **witness (dynamic constant descriptor).** -/
-theorem remap_refs_condy_witness :
-    Kept condyClass = true ∧
-    (remapClass rAB condyClass).map refsClass ≠ omapM (applyRef rAB condyClass.name) (refsClass condyClass) := by decide
+/-- **regression (dynamic constant descriptor).** -/
+theorem remap_refs_condy_fixed :
+    Kept condyClass = true ∧ Agree rAB condyClass = true ∧
+    (remapClass rAB condyClass).map refsClass = omapM (applyRef rAB condyClass.name) (refsClass condyClass) ∧
+    (remapClass rAB condyClass).map refsClass =
+      some [.cls [88], .methodDecl nameG unitLB, .dynDesc LB, .methodRef ⟨B, nameF, unitLB⟩] := by decide
 
 /-- `@Ann(A.f)` where the mappings rename the enum constant `A.f` to `g` -/
 def enumClass : ClassFile := { emptyClass [88] with rva := [.mk [76, 81, 59] [.mk nameG (.enum LA nameF)]] }
@@ -322,7 +325,7 @@ def customHandled : List Nat :=
 /-- positions whose type can carry a reference and which `remap.rs` does not remap: each one is a finding -/
 def exceptions : List Nat :=
   [ -- copied although they carry references
-    id_InvokeDynamic_descriptor, id_InvokeDynamic_name, id_ConstantDynamic_descriptor, id_ConstantDynamic_name,
+    id_InvokeDynamic_name, id_ConstantDynamic_name,
     id_ClassFile_signature, id_Field_signature, id_Method_signature, id_Lv_signature,
     id_ElementValue_Enum_const_name, id_ElementValuePair_name, id_InnerClass_inner_name,
     -- dropped
@@ -336,6 +339,8 @@ def FullCoverage : Prop :=
 /-- **`field_coverage`, as far as it holds**: every field of every struct and every payload of every enum variant
 with a `Mappable` impl whose type can carry a reference is remapped — except the listed positions. Decided on the table
 translated from the current `remap.rs` and duke tree definitions. -/
+example : exceptions.length = 17 := by decide
+
 theorem field_coverage_partial :
     ∀ row ∈ table, row.carries = true →
       row.treat = .remapped ∨ (row.treat = .custom ∧ row.id ∈ customHandled) ∨ row.id ∈ exceptions := by
@@ -344,7 +349,7 @@ theorem field_coverage_partial :
 /-- **witness**: the full statement is false for the current code -/
 theorem field_coverage_witness : ¬ FullCoverage := by
   intro h
-  exact absurd (h ⟨id_InvokeDynamic_descriptor, .kept, true⟩ (by decide) rfl) (by decide)
+  exact absurd (h ⟨id_Field_signature, .kept, true⟩ (by decide) rfl) (by decide)
 
 /-- the exception list is tight: every entry is a reference-carrying position that is kept or dropped -/
 theorem field_coverage_exceptions_tight :
